@@ -12,7 +12,8 @@ Oracle   token streams from the independent lexer (C family) and from the tok0 h
            (2) per kind the count changes only in a permitted direction; kinds that may only move (`}` for mod_move_case_*) keep
                their count;
            (3) ()[]{} of the output are balanced whenever the input's are;
-           (4) sorted / de-duplicated lines (#include, import, using) are compared as multisets / sets of whole lines, everything
+           (4) sorted / de-duplicated lines (#include, import, using directives - not C# `using (...)` statements -, D alias
+               declarations, which uncrustify types as using) are compared as multisets / sets of whole lines, everything
                outside them as a sequence.
 Not in the domain: mod_sort_oc_properties (reorders attribute words inside @property(...); no closed description of its edit set).
 """
@@ -115,7 +116,7 @@ def split_lines(stream, ops):
             owned.append(tuple(stream[j:k]))
             i = k + 1
             continue
-        if (('sort_import' in ops or 'sort_using' in ops) and t in ('import', 'using')) and (i == 0 or stream[i - 1] in (';', '}', '{', '<EOD>')):
+        if (('sort_import' in ops or 'sort_using' in ops) and t in ('import', 'using', 'alias') and i + 1 < n and stream[i + 1] != '(') and (i == 0 or stream[i - 1] in (';', '}', '{', '<EOD>')):
             k = i
             while k < n and stream[k] != ';' and k - i < 40:
                 k += 1
